@@ -52,6 +52,17 @@ from cnfgen.formula.cnf import CNF
 
 from cnfgen.clitools.graph_docs import make_graph_doc
 
+
+class SeedAction(argparse.Action):
+    """Store the seed and install it at once
+
+    Graph arguments are built while the command line is parsed, so
+    the random generator must be seeded as soon as '--seed' is read.
+    """
+    def __call__(self, parser, namespace, values, option_string=None):
+        setattr(namespace, self.dest, values)
+        random.seed(values)
+
 #################################################################
 #          Command line tool follows
 #################################################################
@@ -315,7 +326,7 @@ def setup_command_line_parsers(progname, fhelpers, thelpers):
                         metavar="<seed>",
                         default=None,
                         type=int,
-                        action='store')
+                        action=SeedAction)
     g = parser.add_mutually_exclusive_group()
     g.add_argument('--verbose',
                    '-v',
